@@ -96,6 +96,33 @@ static int fault_op(int nt, char **tok) {
     printf("snaplsr"); build_dirhash(1); putchar('\n'); fflush(stdout);
     strcpy(workdir, savewd); f_armed = was; return 1;
   }
+  if (!strcmp(op, "swap")) {
+    /* second handle slot: swap the current handle with the parked one */
+    static DIRFILE *parked = NULL;
+    DIRFILE *t = D; D = parked; parked = t;
+    puts("-"); fflush(stdout); return 1;
+  }
+  if (!strcmp(op, "snapnf") && nt >= 2) {
+    /* a fresh reader on the k-th snapshot: gd_nframes and every frame of <field> below it */
+    char dir[4300];
+    if (!strcmp(tok[1], "live")) snprintf(dir, sizeof dir, "%s", workdir); else snprintf(dir, sizeof dir, "%s_snap%s", workdir, tok[1]);
+    int was = f_armed; f_armed = 0;
+    DIRFILE *R = gd_open(dir, GD_RDONLY);
+    int eo = gd_error(R);
+    long long nf = gd_nframes64(R); int en = gd_error(R);
+    printf("snapnf open=%d nf=%lld e=%d", eo, nf, en);
+    if (nt >= 3 && !eo && !en) {
+      unsigned spf = gd_spf(R, tok[2]);
+      size_t want = (size_t)(nf > 0 ? nf : 0) * spf, cap = want ? want : 1;
+      double *buf = malloc(cap * sizeof(double));
+      size_t n = gd_getdata64(R, tok[2], 0, 0, (size_t)(nf > 0 ? nf : 0), 0, GD_FLOAT64, buf);
+      printf(" n=%zu ge=%d d=", n, gd_error(R));
+      for (size_t i = 0; i < n; i++) { uint64_t b; memcpy(&b, buf + i, 8); if (buf[i] != buf[i]) printf("%snan", i ? "," : ""); else printf("%s%" PRIx64, i ? "," : "", b); }
+      free(buf);
+    }
+    putchar('\n'); fflush(stdout);
+    gd_discard(R); f_armed = was; return 1;
+  }
   if ((!strcmp(op, "snapmeta") || !strcmp(op, "snapget") || !strcmp(op, "snapls")) && nt >= 2) {
     char dir[4300]; snprintf(dir, sizeof dir, "%s_snap%s", workdir, tok[1]);
     int was = f_armed; f_armed = 0;
